@@ -51,6 +51,15 @@ CHECKS = {
         "regex of the loaded grammar each run). Undefined escapes are outside the property. Embedding in statements through the real "
         "lark parser is not solver-decided (covered structurally by C10/C11).",
         ref="§4 C12"),
+    "C16": dict(
+        text="The wire form is rendered by the harness from symbolic parts (method, origin-form path incl. ';', header names/values, "
+        "status digits, reason, body over the full byte alphabet incl. CR LF CR LF and NUL) and the parsed tuple is proved equal to the "
+        "parts for every value within the bounds; every first line of <=7/9 symbolic bytes that is not three whitespace-separated "
+        "parts is proved to raise ValueError. Percent-decoding runs natively on 8 enumerated concrete queries (the solver proves only "
+        "that exactly the part after '?' reaches parse_qsl).",
+        note="Trusted: z3; symx; origin-form model of urlsplit/urlparse (validated against urllib each run); decimal int(str) model; "
+        "parse_qsl native on concrete input.",
+        ref="§4 C16"),
     "C15": dict(
         text="iter_find_needle: for every haystack (<=8/12 fully symbolic bytes), needle (1..3 / 1..4,7 symbolic bytes), read-buffer size "
         "1..5,8 / 1..9, start position and search limit, the reported offsets are proved to be exactly the true occurrences (ascending, "
